@@ -447,7 +447,7 @@ def unique_scenarios(ctx: Ctx, out: Outcome, key: str, limit: int):
             break
 
 
-def shared_tag_scenarios(ctx: Ctx, out: Outcome, key: str, limit: int):
+def shared_tag_scenarios(ctx: Ctx, out: Outcome, key: str, limit: int, req=None, impl=None, meta=None):
     """Link-element relations of one class that store their links under the SAME XML tag (told apart by xsi:type):
     re-assigning or deleting one of them must leave the sibling relations exactly as they were."""
     model = ol.load(ctx, key)
@@ -473,11 +473,17 @@ def shared_tag_scenarios(ctx: Ctx, out: Outcome, key: str, limit: int):
             r = rng.choice([x for x in rs if views[x.attr]])
             for label, fn in (("assign-same-members", lambda r=r: setattr(r.owner, r.attr, list(r.get()))),
                               ("delete-relation", lambda r=r: delattr(r.owner, r.attr))):
+                lkids = [{"nid": id(c), "tag": c.tag if isinstance(c.tag, str) else "", "xt": ol.xtype_of(c) or ""} for c in r.owner._element]
+                ol._KEEP.append(list(r.owner._element))
                 try:
                     fn()
                     outcome = "ok"
                 except Exception as e:  # noqa: BLE001
                     outcome = type(e).__name__
+                if label == "delete-relation" and outcome == "ok" and req is not None:
+                    req.append({"op": "clist.linkclear", "lkids": lkids, "tag": r.acc.tag, "xts": sorted(r.acc.xtypes)})
+                    impl.append([id(c) for c in r.owner._element])
+                    meta.append(("clist.linkclear", "LinkAccessor", "-", len(lkids)))
                 n += 1
                 out.case(("shared-tag", key, type(r.owner).__name__, r.attr, label, outcome),
                          {"model": key, "owner": type(r.owner).__name__, "relation": r.attr, "tag": tag, "op": label, "outcome": outcome})
@@ -518,7 +524,7 @@ def run(ctx: Ctx) -> Outcome:
             S.run_history(ctx, out, key, ns, [ListMonitor(out, ctx, req, impl, meta), ReloadMonitor(out, ctx)], weights=W, hist_id=h)
     for key in (["t52", "t50", "write"] if ctx.thorough else ["t50"]):
         unique_scenarios(ctx, out, key, ctx.pick(6, 30))
-        shared_tag_scenarios(ctx, out, key, ctx.pick(6, 30))
+        shared_tag_scenarios(ctx, out, key, ctx.pick(6, 30), req, impl, meta)
     # model-only sweep: every index on synthetic child lists (also covered by the theorems)
     rng = random.Random(f"c08:{ctx.seed}")
     for _ in range(ctx.pick(300, 3000)):
